@@ -627,6 +627,7 @@ impl Scenario for HuffScen {
         let n = 4 + rng.below(if thorough { 120 } else { 40 });
         let item_max = *rng.pick(&[3usize, 8, 20, 40]);
         let mut trained = false;
+        let mixed = rng.chance(1, 3);
         // structured opening: a container fed *only* by read items of another (coded or raw)
         // container becomes the sole source of the next generation
         if rng.chance(1, if matches!(self.prop, 14 | 20) { 3 } else { 10 }) {
@@ -664,7 +665,15 @@ impl Scenario for HuffScen {
             let t = rng.below(8);
             match c {
                 0 => {
-                    ops.push(HOp::Train { t, profile, k });
+                    if mixed && i > 0 {
+                        // differently shaped code tables side by side (deep and shallow, small and
+                        // large alphabets): clone_from / merges / copies between unlike generations
+                        let p2 = rng.weighted(&[2, 5, 3, 3, 4]) as u8;
+                        let k2 = (*rng.pick(&[1u32, 2, 3, 5, 9, 17, 24, 40, 200, 256, 300])).min(maxk);
+                        ops.push(HOp::Train { t, profile: p2, k: k2 });
+                    } else {
+                        ops.push(HOp::Train { t, profile, k });
+                    }
                     trained = true;
                     if rng.chance(3, 4) {
                         ops.push(HOp::Merge { srcs: vec![rng.below(8)], probe: true });
